@@ -60,6 +60,9 @@ def gen_line(rng):
             out.append(rng.choice("0123456789"))
         else:
             out.append(rng.choice(" \t;:,.()=+-*/<>'$%#!?@[]\\^_`{|}~&"))
+    if rng.random() < 0.10:
+        # words that mean something to a BASIC-aware formatter (remarks, data, apostrophe): the property knows letters and quotes only
+        out.insert(rng.randint(0, len(out)), rng.choice(["rem ", ":rem draws the title", "REM x", "10 rem a\"b", " data a,b,\"c", "'note", ":'end", " else "]))
     if rng.random() < 0.08:
         # characters str.splitlines() cuts on but a text file read line by line does not
         out.insert(rng.randint(0, len(out)), rng.choice(EXOTIC))
